@@ -251,7 +251,8 @@ def apply_obj(im, e, spec_before):
             o.disc_number, o.disc_count = e[2], e[3]
     elif k == "unified":
         for o in objs_of(e[1]):
-            o.unified, o.additional_variants = e[2], list(e[3])
+            o.unified = e[2]
+            o.additional_variants[:] = list(e[3])       # edited IN PLACE, as a caller appending to the list would
     elif k == "addimg":
         n = len(spec_before["images"])
         im.add(e[1], e[2], mk_image(im, imgspec(n, path="%s/%s/iso/img-%d.iso" % (e[1], e[2], n))))
